@@ -2,7 +2,7 @@
    Only property theorems here; each closed by `exact` of a lemma from Proofs/. *)
 From Flyt Require Import Base Script FlowTable Engine EngineCorr EngineFacts Lifecycle
      LifecycleProofs SpecEngine EngineSpecProofs.
-From Flyt Require Import C05Glue.
+From Flyt Require Import C05Glue SpecBatch FwCauseProofs.
 
 (* context already done: no callback, error matches the context's error (user node or flow) *)
 Theorem C05_pre_cancelled :
@@ -32,3 +32,23 @@ Theorem C05_spec_holds_of_model :
   forall sc : escen, spec_C05 sc (eobs_of_model (model_obs sc)) = true.
 Proof. exact spec_C05_model_lemma. Qed.
 Print Assumptions C05_spec_holds_of_model.
+
+(* "reported as such": a failed run reports a framework-class error (no user error, no context
+   error at its root) only if the table has a cause for one - a flow without start node, or a
+   reference to a node that is not there - for every oracle that does not itself answer with
+   such an error, every table, nesting depth and fuel.  So a run cut short by the context
+   cannot come back with some fixed framework error instead of the context's. *)
+Theorem C05_framework_error_has_cause :
+  forall (o : oracle) ce,
+    (forall h c r cn e, o h c = (r, cn) -> r = RErr e -> Ok e) ->
+    forall (tbl : table) fuel s n s' e,
+      run o ce tbl fuel s n = Some (s', Fail e) -> ~ Ok e -> tbl n = None \/ fw_cause tbl.
+Proof. exact run_fw. Qed.
+Print Assumptions C05_framework_error_has_cause.
+
+(* the predicate the case files apply (spec_C05 and the framework-error clause) holds of the
+   model's observation of EVERY scenario *)
+Theorem C05_specx_holds_of_model :
+  forall sc : escen, spec_C05x sc (eobs_of_model (model_obs sc)) = true.
+Proof. exact spec_C05x_model_lemma. Qed.
+Print Assumptions C05_specx_holds_of_model.
